@@ -69,5 +69,70 @@ def wouldblock(ob, tier):
     return dict(res, verdict="holds")
 
 
+def inflight(ob, tier):
+    """Pipe::check_connections (the "keep the session?" table): while the client side can still
+    receive (frontend status Normal / WriteOpen) and response bytes are in flight — held in
+    backend_buffer, still readable on the backend socket (readiness event READABLE, i.e. unread
+    in the kernel) or in the splice pipe — the session is kept, whatever the backend status,
+    in particular after the backend hung up; symmetrically for request bytes while the backend
+    can still receive.  Closing earlier hands the peer a clean EOF on a truncated stream."""
+    bits = c01.ready_bits()
+    src = open(mirrun.REPO + "/lib/src/protocol/pipe.rs").read()
+    m = re.search(r"pub struct Pipe<[^{]*\{(.*?)\n\}", src, re.S)
+    fields = re.findall(r"^\s*(?:pub(?:\([\w:]+\))? )?(\w+):", re.sub(r"//.*", "", m.group(1)), re.M)
+    em = re.search(r"(?:pub )?enum ConnectionStatus \{(.*?)\n\}", src, re.S)
+    if em is None:
+        return {"verdict": "inconclusive", "why": "ConnectionStatus enum not found in pipe.rs"}
+    variants = re.findall(r"^\s*(\w+),", re.sub(r"//.*", "", em.group(1)), re.M)
+    fn = mirrun.get_fn("lib", "::check_connections", sig="&Pipe<Front, L>")
+    ex = engine.Executor(fn, loop_bound=lambda f, h: 1, models=c01.ready_models(bits))
+    ev = ex.run()
+    q = Q(ex.ctx)
+    res = {"paths": ex.stats["nodes"], "functions": [fn.name]}
+    rets = [e for e in ev if e.kind == "return"]
+    fs = ex.initial.get("discr((*_1).%d)" % fields.index("frontend_status"))
+    bs = ex.initial.get("discr((*_1).%d)" % fields.index("backend_status"))
+    if len(rets) != 1 or fs is None or bs is None or rets[0].env.get("_0") is None:
+        return dict(res, verdict="inconclusive", why="shape: returns=%d frontend_status read=%s backend_status read=%s" % (len(rets), fs is not None, bs is not None))
+    r0 = rets[0].env["_0"].term
+
+    def side(buf, rdy, splice):
+        terms = []
+        for e in ev:
+            if e.kind == "call" and e.callee.endswith("::available_data") and e.args[0]["val"].ref == "(*_1).%d" % fields.index(buf) and e.result is not None:
+                terms.append(engine.AND(e.guard, "(bvugt %s %s)" % (e.result.term, engine.bv(0, 64))))
+            if e.kind == "call" and e.callee.endswith("::" + splice) and e.result is not None:
+                terms.append(engine.AND(e.guard, "(bvugt %s %s)" % (e.result.term, engine.bv(0, 64))))
+        w = ex.initial.get("(*_1).%d.0.0" % fields.index(rdy))
+        if w is not None:
+            terms.append("(= (bvand %s %s) %s)" % (w.term, engine.bv(bits["READABLE"], 16), engine.bv(bits["READABLE"], 16)))
+        return terms, w is not None
+
+    def can_receive(d):
+        return engine.OR(*["(= %s %s)" % (d.term, engine.bv(variants.index(v), 64)) for v in ("Normal", "WriteOpen")])
+    problems = []
+    resp, rread = side("backend_buffer", "backend_readiness", "splice_out_pending")
+    req, qread = side("frontend_buffer", "frontend_readiness", "splice_in_pending")
+    if not rread:
+        problems.append("the backend readiness event (bytes still unread on the backend socket) is not part of the in-flight test")
+    if not qread:
+        problems.append("the frontend readiness event (bytes still unread on the client socket) is not part of the in-flight test")
+    for t in resp:
+        if q([rets[0].guard, can_receive(fs), t, engine.NOT(r0)])[0] != "unsat":
+            problems.append("the session can be closed while the client can still receive and response bytes are in flight (buffered, unread on the backend socket, or in the splice pipe): truncated stream with a clean EOF")
+            break
+    for t in req:
+        if q([rets[0].guard, can_receive(bs), t, engine.NOT(r0)])[0] != "unsat":
+            problems.append("the session can be closed while the backend can still receive and request bytes are in flight")
+            break
+    wit = [q([rets[0].guard, r0])[0], q([rets[0].guard, engine.NOT(r0)])[0]]
+    res["witness"] = "keep / close both reachable: %s; %d response-side and %d request-side in-flight terms" % (wit, len(resp), len(req))
+    res["witness_ok"] = all(w == "sat" for w in wit) and len(resp) >= 2 and len(req) >= 2
+    res["queries"], res["solver_s"] = q.n, round(q.secs, 2)
+    if problems:
+        return dict(res, verdict="counterexample", text="; ".join(problems), model={"problems": problems}, replay={"reproduced": False, "why": "no native replay"})
+    return dict(res, verdict="holds")
+
+
 def run(ob, tier):
-    return {"wouldblock": wouldblock}[ob["which"]](ob, tier)
+    return {"wouldblock": wouldblock, "inflight": inflight}[ob["which"]](ob, tier)
